@@ -419,14 +419,14 @@ def handle (j : Json) : Json :=
     let Xpc := matOfBits n P (getStrArr j "Xpc"); let Xphys := matOfBits n Q (getStrArr j "Xphys"); let B := matOfBits Q P (getStrArr j "B")
     let cA := (getStrArr j "c").map bitsToFloat
     let c : Nat → Float := fun v => cA[v]!
-    let shift := bitsToFloat (getStr j "shift")
+    let lmin := bitsToFloat (getStr j "lmin"); let eps := bitsToFloat (getStr j "eps")
     let evA := (getStrArr j "expvar").map bitsToFloat
     let E := matOfBits P k (getStrArr j "E"); let l0 := (getStrArr j "lam0").map bitsToFloat
     let lam0 : Fin k → Float := fun i => l0[i.val]!
     let Xnew := matOfBits m Q (getStrArr j "Xnew")
     let C : Mat P P Float := mccaC (ρ := Float) Xpc blkP nv
-    let D : Mat P P Float := if getBool j "pca" then mccaDpca (ρ := Float) blkP nv c (fun a => evA[a.val]!) shift
-                             else mccaD (ρ := Float) Xpc blkP nv c shift
+    let D : Mat P P Float := if getBool j "pca" then mccaDpca (ρ := Float) blkP nv c (fun a => evA[a.val]!) lmin eps
+                             else mccaD (ρ := Float) Xpc blkP nv c lmin eps
     -- `eigvals.argsort()[::-1]`: ascending stable order, reversed
     let asc : List (Fin k) := (List.finRange k).mergeSort (fun a b => lam0 a ≤ lam0 b)
     let idx := asc.reverse
@@ -434,6 +434,7 @@ def handle (j : Json) : Json :=
     let F : MccaFit n Q k Float Float := mccaFit Xphys blkQ B E lam0 perm
     let vs := List.range nv
     Json.mkObj [("status", "ok"), ("C", toJson (matToBits C)), ("D", toJson (matToBits D)), ("lam", toJson (vecToBits F.lam)),
+      ("subset", toJson [Gen.mccaSubsetLow P k, Gen.mccaSubsetHigh P]),
       ("weights", toJson (matToBits F.weights)),
       ("loadings", toJson (vs.map fun v => matToBits (F.loadings v))),
       ("variates", toJson (vs.map fun v => matToBits (F.variates v))),
